@@ -431,12 +431,14 @@ func c11CheckPair(c c11Pair) *kit.Fail {
 	wantU := float64(o.twoU) / 2
 	var twoSidedP float64
 	twoSidedOK := false
+	firstU, firstP := map[stats.LocationHypothesis]float64{}, map[stats.LocationHypothesis]float64{}
 	for _, alt := range alts {
 		res, err := stats.MannWhitneyUTest(c11Copy(c.X1), c11Copy(c.X2), alt)
 		if err != nil || res == nil {
 			add(kit.Failf("unexpected-error", "alt=%s n1=%d n2=%d T=%v: err=%v res=%v", c11AltName(alt), o.n1, o.n2, o.T, err, res))
 			continue
 		}
+		firstU[alt], firstP[alt] = res.U, res.P
 		uRight := math.Abs(res.U-wantU) <= 1e-9*math.Max(1, wantU)
 		if !uRight {
 			add(kit.Failf("u-wrong", "alt=%s: U=%v, definition gives %v (n1=%d n2=%d T=%v)", c11AltName(alt), res.U, wantU, o.n1, o.n2, o.T))
@@ -474,6 +476,49 @@ func c11CheckPair(c c11Pair) *kit.Fail {
 				twoSidedOK = true
 			}
 		}
+	}
+
+	// The same values handed over the way callers hold them: already sorted,
+	// with spare capacity behind the first sample (built by append), either in
+	// separate arrays or as adjacent windows of one buffer, and the SAME slices
+	// reused for all three alternatives. U and P are functions of the two
+	// multisets, so every call must repeat the numbers found above.
+	{
+		s1, s2 := c11Copy(c.X1), c11Copy(c.X2)
+		sort.Float64s(s1)
+		sort.Float64s(s2)
+		var h1, h2 []float64
+		layout := "separate arrays, spare capacity"
+		if (o.n1+o.n2)%2 == 0 {
+			layout = "adjacent windows of one buffer"
+			buf := make([]float64, 0, 2*(o.n1+o.n2)+3)
+			buf = append(append(buf, s1...), s2...)
+			h1, h2 = buf[:o.n1], buf[o.n1:o.n1+o.n2]
+		} else {
+			h1 = append(make([]float64, 0, 2*(o.n1+o.n2)+3), s1...)
+			h2 = append(make([]float64, 0, o.n2+1), s2...)
+		}
+		for round := 0; round < 2; round++ {
+			for _, alt := range alts {
+				res, err := stats.MannWhitneyUTest(h1, h2, alt)
+				if err != nil || res == nil {
+					add(kit.Failf("held-slices-unexpected-error", "%s, round %d alt=%s n1=%d n2=%d T=%v: err=%v", layout, round, c11AltName(alt), o.n1, o.n2, o.T, err))
+					continue
+				}
+				// Correctness was judged above; here only that the same values
+				// give the same numbers again.
+				wU, ok1 := firstU[alt]
+				wP, ok2 := firstP[alt]
+				if !ok1 || !ok2 {
+					continue
+				}
+				if math.Abs(res.U-wU) > 1e-9*math.Max(1, math.Abs(wU)) || !(math.Abs(res.P-wP) <= c11Tol) {
+					add(kit.Failf("held-slices-result-differs", "%s, round %d alt=%s: U=%v P=%v, but the same values in private copies gave U=%v P=%v (n1=%d n2=%d T=%v; samples now %v %v)",
+						layout, round, c11AltName(alt), res.U, res.P, wU, wP, o.n1, o.n2, o.T, h1, h2))
+				}
+			}
+		}
+		kit.Count("pairs re-tested on caller-held sorted slices ("+layout+")", 1)
 	}
 
 	// Swapped samples: the two-sided value must not change.
